@@ -12,7 +12,11 @@ CHECKS = {
             "reader inputs (valid, grammar-aware mutations, raw bytes; read/load/eval) and malformed core/derived forms. Each item "
             "is evaluated through the embedding API with no Scheme handler: it must end in a value or an error object; any "
             "sanitizer report, signal or heap-checker report is a violation; after every error a fixed probe program must print "
-            "in the same context what it prints in a fresh one.",
+            "in the same context what it prints in a fresh one. Further families: interrupts delivered to threads under "
+            "randomised time slices; every place where C code calls back into Scheme x six ways of leaving the callback (raise, "
+            "error, call/cc escape, dynamic-wind, uncaught, re-entry after the C function returned) on the plain and the ASan "
+            "build; deep data built by loops; an item that ignores the interpreter's interrupt flag for 30 s when run alone is a "
+            "hang (signature carries the C functions it was stuck in).",
             "Red zones see overruns of up to 32 bytes past an object and uses of swept memory, not intra-object overflow or jumps "
             "over the pad. Inputs are sampled (all single arguments, sampled tuples). Heap limit 256 MB: out-of-memory errors are "
             "accepted outcomes; watchdog expiry is inconclusive. After primitives that replace interpreter state by design the probe "
@@ -170,7 +174,9 @@ CHECKS = {
             "Runtime monitoring: correctly synchronised SRFI 18 programs (mutex counter, bounded buffers with unique ids, "
             "ping-pong, join tree, timed waits, thread-local parameters, exceptions through join) run under hundreds of injected "
             "slice sequences (1..Q instructions, plus enumerated first pre-emption offsets); oracle = in-program invariants, one "
-            "reference final state, the hook's deadlock detector, crash watch.",
+            "reference final state, the hook's deadlock detector, crash watch. Threads that call back into the VM from C "
+            "(sort comparators) - finishing, escaping, being terminated or interrupted there - run under all quanta with a "
+            "step budget (quanta handed out) deciding 'never finishes' in logical steps.",
             "Trusted: the slice hook only shortens quanta the scheduler could produce anyway. Interleavings are sampled (the "
             "evidence reports distinct interleaving hashes); wall-clock never decides, watchdog expiry is inconclusive.",
             "DESIGN.md section 3 C11"),
